@@ -127,3 +127,29 @@ V("c13-targets-seed-plus", "C13", "fire", GE, "    rng = np.random.default_rng(r
 V("c13-silent-if-stmt", "C13", "silent", ND, "        " + SEEDLINE + "\n", "        if random_state is not None:\n            np.random.seed(random_state)\n", what="if statement for the IfExp idiom")
 V("c13-silent-helper", "C13", "silent", GE, "    rng = np.random.default_rng(random_state)\n    # Build a triangular matrix", "    gen = np.random.default_rng(random_state)\n    rng = gen\n    # Build a triangular matrix", what="alias of the generator")
 V("c13-silent-noneq", "C13", "silent", AN, SEEDLINE, "np.random.seed(random_state) if not random_state is None else None", what="`not x is None`")
+
+# ------------------------------------------------------------------------------- C14
+V("c14-lganm-sample-nocopy-W", "C14", "fire", LG, "        W = self.W.copy()\n", "        W = self.W\n", rule="M2", what="do-intervention zeroes the model's own W")
+V("c14-lganm-sample-view-means", "C14", "fire", LG, "means = self.means.astype(float)", "means = self.means.astype(float, copy=False)", rule="M2", what="astype(copy=False) may return the model's array")
+V("c14-lganm-ctor-nocopy", "C14", "fire", LG, "        self.W = W.copy()\n", "        self.W = W\n", rule="M3", what="constructor keeps the caller's matrix")
+V("c14-lganm-ctor-nocopy-means", "C14", "fire", LG, "            self.means = means.copy()\n", "            self.means = means\n", rule="M3", what="constructor keeps the caller's means")
+V("c14-nd-ctor-nocopy", "C14", "fire", ND, "        self.covariance = covariance.copy()\n", "        self.covariance = covariance\n", rule="M3", what="NormalDistribution keeps the caller's covariance")
+V("c14-anm-ctor-nocopy", "C14", "fire", AN, "        self.A = deepcopy(A)\n", "        self.A = A\n", rule="M3", what="ANM keeps the caller's matrix")
+V("c14-anm-ctor-noise-nocopy", "C14", "fire", AN, "self.noise_distributions = deepcopy(noise_distributions)", "self.noise_distributions = noise_distributions", rule="M3", what="ANM keeps the caller's list")
+V("c14-anm-sample-writes-dict", "C14", "fire", AN, "                X[:, i] = do_interventions[i](n)\n", "                X[:, i] = do_interventions.pop(i)(n)\n", rule="M", what="ANM.sample consumes the caller's dict")
+V("c14-anm-sample-rebinds", "C14", "fire", AN, "        X = np.zeros((n, self.p))\n", "        X = np.zeros((n, self.p))\n        self.n = n\n", rule="M2.rebind", what="sample stores state on the model")
+V("c14-nd-mse-writes-cov", "C14", "fire", ND, "        cov = self.covariance\n", "        cov = self.covariance\n        cov[y, y] += 0.0\n", rule="M2", what="mse writes the model's covariance")
+V("c14-nd-marginal-returns-self", "C14", "fire", ND, "        X = np.atleast_1d(X)\n        # Compute marginal mean/variance\n", "        X = np.atleast_1d(X)\n        if len(X) == self.p:\n            return self\n        # Compute marginal mean/variance\n", rule="M4", what="marginal hands out the model itself")
+V("c14-split-nocopy", "C14", "fire", UT, "        sample = sample.copy()\n        rng.shuffle(sample)", "        rng.shuffle(sample)", rule="M1", what="split_data shuffles the caller's arrays")
+V("c14-maxorient-nocopy", "C14", "fire", UT, "        raise e\n    P = P.copy()\n", "        raise e\n", rule="M1", what="maximally_orient edits the caller's PDAG")
+V("c14-alldags-nocopy", "C14", "fire", UT, "        A = pdag.copy()\n        A[oriented_edges[:, 1], oriented_edges[:, 0]] = 0", "        A = pdag\n        A[oriented_edges[:, 1], oriented_edges[:, 0]] = 0", rule="M1", what="all_dags edits the caller's PDAG")
+V("c14-remove-edges-inplace", "C14", "fire", UT, "    A = A.astype(bool).astype(int)\n    rng = np.random.default_rng(random_state)\n    edges = directed_edges(A)\n    if len(edges) < no_edges:\n        raise ValueError(\"There are not enough edges to remove.\")\n    pruned = A.copy()",
+  "    rng = np.random.default_rng(random_state)\n    edges = directed_edges(A)\n    if len(edges) < no_edges:\n        raise ValueError(\"There are not enough edges to remove.\")\n    pruned = A", rule="M", what="remove_edges edits and returns the caller's matrix")
+V("c14-closure-inplace", "C14", "fire", UT, "    closure = np.zeros_like(A)\n    for i in range(len(A)):", "    closure = A\n    for i in range(len(A)):", rule="M", what="transitive_closure written into the input")
+V("c14-sort-inplace", "C14", "fire", UT, "    L = list(L)\n    if order is None:\n        return sorted(L)", "    if order is None:\n        L.sort()\n        return L", rule="M", what="sort() sorts the caller's list in place")
+V("c14-chaincomp-default-acc", "C14", "fire", UT, "def chain_component(i, G):", "def chain_component(i, G, visited_acc=[]):", more=[(UT, "            visited.add(j)\n", "            visited.add(j)\n            visited_acc.append(j)\n")],
+  rule="M", what="mutable default argument used as accumulator")
+V("c14-pdag2dag-writes-P", "C14", "fire", UT, "                for j in real_neighbors:\n                    G[j, real_i] = 1\n", "                for j in real_neighbors:\n                    G[j, real_i] = 1\n                    P[j, i] = 0\n", rule="M1", what="pdag_to_dag edits the caller's PDAG before shrinking it")
+V("c14-silent-copy-spelling", "C14", "silent", LG, "        W = self.W.copy()\n", "        W = np.array(self.W)\n", what="np.array copies")
+V("c14-silent-deepcopy", "C14", "silent", ND, "        self.mean = mean.copy()\n", "        import copy\n        self.mean = copy.deepcopy(mean)\n", what="deepcopy for copy()")
+V("c14-silent-local-mutation", "C14", "silent", UT, "    S = list(S)\n    subgraph = A[S, :][:, S]\n", "    S = list(S)\n    S.sort()\n    subgraph = A[S, :][:, S]\n", what="mutating a fresh local list")
